@@ -48,6 +48,14 @@ func (g *gen) p(label string, percent int) bool       { return rapid.IntRange(0,
 
 func (g *gen) freshName(base string) (ctor, typ string) {
 	ns := g.pick("ns", g.o.Namespaces...)
+	// now and then a namespaced constructor whose short name is that of a builtin (a.string = a.String)
+	if ns != "" && g.p("builtinlike", 6) {
+		c := g.pick("builtinname", "int", "long", "string", "float", "double")
+		if full := ns + "." + c; !g.names[full] {
+			g.names[full] = true
+			return full, ns + "." + string(c[0]-'a'+'A') + c[1:]
+		}
+	}
 	for {
 		g.seq++
 		c := fmt.Sprintf("%s%d", base, g.seq)
@@ -397,6 +405,11 @@ func Generate(rt *rapid.T, o GenOpts) *Schema {
 	}
 	if o.Recursion && g.p("recursion", 50) {
 		g.addRecursion()
+	}
+	// declaration order is free in TL: interleave the constructors of different types
+	if g.p("shuffle", 40) {
+		perm := rapid.Permutation(g.s.Combs).Draw(g.rt, "order")
+		g.s.Combs = perm
 	}
 	if o.Functions {
 		k := g.n("nfuncs", 1, 6)
